@@ -73,6 +73,8 @@ def job_list(ctx, composite_only=False, cap_quick=2500, cap_thorough=20000):
     for i, j in enumerate(gen):
         if i % 3 == 1:
             j["prime_counters"] = 2 ** 32 - 40 - (i * 97) % 600
+        if i % 5 == 2:
+            j["debug_logging"] = True       # the run as `-vv` would make it (records go to a null sink)
     jobs += gen
     if composite_only:
         jobs = [j for j in jobs if "coulomb_atoms" not in j["ini"]]
